@@ -192,8 +192,8 @@ def consumeRangeA1 (s : List Char) : Option (PRange × List Char) :=
 /-! ### R1C1 parsing (lexer/ranges.rs) -/
 
 /-- `[`n`]` or n after the `R` / `C` letter: models the `match self.peek_char()` blocks of
-    consume_reference_r1c1 (consume_integer reads one arbitrary first character followed by
-    ASCII digits; `self.expect(TokenType::RightBracket)` skips whitespace first).
+    consume_reference_r1c1 (inside brackets consume_integer reads one arbitrary first character
+    followed by ASCII digits; without brackets the first character must be a digit; `self.expect(TokenType::RightBracket)` skips whitespace first).
     Returns (value, absolute, rest). -/
 def consumeR1C1Part (cc : CharClass) (s : List Char) : Option (Int × Bool × List Char) :=
   match s with
@@ -210,6 +210,9 @@ def consumeR1C1Part (cc : CharClass) (s : List Char) : Option (Int × Bool × Li
           | [] => none
           | e :: rest => if e = ']' then some (v, false, rest) else none
     else
+      -- fix F26-r1c-name: an absolute row / column is a plain number (`if !c.is_ascii_digit()`): the
+      -- pinned tree took any first character, so that `R1C+1` was read as the reference R1C1
+      if !isDigit c then none else
       match parseI32 (c :: t.takeWhile isDigit) with
       | none => none
       | some v => some (v, true, t.dropWhile isDigit)
